@@ -114,15 +114,15 @@ theorem C17_range_is_enumeration (tx : Tx) (lo hi id : Nat) :
   simp only [Bool.and_eq_true, decide_eq_true_eq, List.contains_eq_mem, List.mem_range'_1]
   omega
 
-/-- C17_ctl_target: a run-time `ctl:ruleRemoveTargetById=id;VAR:key` recorded for the rule has,
-    on every later evaluation of a target of that variable, exactly the effect of the rule
-    written with the extra `!VAR:key` -/
-theorem C17_ctl_target (tx : Tx) (ecol : List (Var × Bytes)) (t : Target) (k : Bytes) :
-    getField tx (ecol ++ [(t.var, k)]) t = getField tx ecol { t with exc := t.exc ++ [k] } := by
-  simp only [getField, List.filter_append, List.map_append, List.filter_cons, beq_self_eq_true, if_true,
+/-- C17_ctl_target: a run-time `ctl:ruleRemoveTargetById=id;VAR:key` (string or regex key: any
+    exception `e`) recorded for the rule has, on every later evaluation of a target of that
+    variable, exactly the effect of the rule written with the extra `!VAR:key` -/
+theorem C17_ctl_target (env : Env) (tx : Tx) (ecol : List (Var × Exc)) (t : Target) (e : Exc) :
+    getField env tx (ecol ++ [(t.var, e)]) t = getField env tx ecol { t with exc := t.exc ++ [e] } := by
+  simp only [getField, selected, List.filter_append, List.map_append, List.filter_cons, beq_self_eq_true, if_true,
     List.filter_nil, List.map_cons, List.map_nil]
-  have key : ∀ md : MD, excluded (t.exc ++ ((ecol.filter fun r => r.1 == t.var).map (·.2) ++ [k])) md =
-      excluded (t.exc ++ [k] ++ (ecol.filter fun r => r.1 == t.var).map (·.2)) md := by
+  have key : ∀ md : MD, excluded env (t.exc ++ ((ecol.filter fun r => r.1 == t.var).map (·.2) ++ [e])) md =
+      excluded env (t.exc ++ [e] ++ (ecol.filter fun r => r.1 == t.var).map (·.2)) md := by
     intro md
     unfold excluded
     simp only [List.any_append, List.any_cons, List.any_nil, Bool.or_false]
@@ -130,10 +130,253 @@ theorem C17_ctl_target (tx : Tx) (ecol : List (Var × Bytes)) (t : Target) (k : 
   simp only [key]
 
 /-- and it touches no target of another variable -/
-theorem C17_ctl_target_other (tx : Tx) (ecol : List (Var × Bytes)) (t : Target) (v : Var) (k : Bytes)
-    (h : v ≠ t.var) : getField tx (ecol ++ [(v, k)]) t = getField tx ecol t := by
-  have : ((v, k).1 == t.var) = false := by simpa using h
+theorem C17_ctl_target_other (env : Env) (tx : Tx) (ecol : List (Var × Exc)) (t : Target) (v : Var) (e : Exc)
+    (h : v ≠ t.var) : getField env tx (ecol ++ [(v, e)]) t = getField env tx ecol t := by
+  have : ((v, e).1 == t.var) = false := by simpa using h
   simp [getField, List.filter_append, this]
+
+/-- the exception a ctl records for a regex key is the one the rule parser records for
+    `!VAR:/re/`, up to the (unused) key text: both carry the same compiled expression, so by
+    `C01_rx_exception_only_rx` they exclude the same entries -/
+theorem C17_ctl_rx_same_as_rule (env : Env) (mode : RxMode) (v : Var) (key p : Bytes)
+    (h : compiledRx mode v key = some p) (md : MD) :
+    excMatches env (mkCtlExc mode v key) md = excMatches env (mkExc mode v key) md := by
+  simp [mkCtlExc, mkExc, h, excMatches]
+
+/-- for a plain key the ctl form lower-cases the key, which changes nothing -/
+theorem C17_ctl_key_same_as_rule (env : Env) (mode : RxMode) (v : Var) (key : Bytes)
+    (h : compiledRx mode v key = none) (md : MD) :
+    excMatches env (mkCtlExc mode v key) md = excMatches env (mkExc mode v key) md := by
+  simp [mkCtlExc, mkExc, h, excMatches, lower_idem]
+  cases key <;> simp [lower]
 
 /-- non-vacuity -/
 example : removed { ({} : Tx) with rmRanges := [(10, 20)] } 15 = true := by decide
+
+/-! ## configuration-time exclusions and updates (buildRules) -/
+
+/-- does an element of an id list name this id -/
+def selHas : IdSel → Nat → Bool
+  | .one i, id => id == i
+  | .range lo hi, id => lo ≤ id && id ≤ hi
+
+def SelsValid (sels : List IdSel) : Prop := ∀ s ∈ sels, ∀ lo hi, s = .range lo hi → lo ≤ hi
+
+theorem deleteFirst_eq_filter (id : Nat) (rs : List Rule) (hn : (rs.map (·.id)).Nodup) :
+    deleteFirst id rs = rs.filter (fun r => !(r.id == id)) := by
+  induction rs with
+  | nil => rfl
+  | cons r rs ih =>
+    have hn' : (rs.map (·.id)).Nodup := (List.nodup_cons.mp (by simpa using hn)).2
+    have hnot : r.id ∉ rs.map (·.id) := (List.nodup_cons.mp (by simpa using hn)).1
+    unfold deleteFirst
+    by_cases h : (r.id == id) = true
+    · simp only [h, if_true, List.filter_cons, Bool.not_true, Bool.false_eq_true, if_false]
+      have hid : r.id = id := by simpa using h
+      symm
+      apply List.filter_eq_self.mpr
+      intro r' hr'
+      have : r'.id ≠ id := by
+        intro heq; apply hnot; rw [hid, ← heq]; exact List.mem_map.mpr ⟨r', hr', rfl⟩
+      simpa using this
+    · simp only [h, Bool.false_eq_true, if_false, List.filter_cons, Bool.not_false, if_true]
+      rw [ih hn']
+
+theorem filter_ids_nodup (p : Rule → Bool) (rs : List Rule) (hn : (rs.map (·.id)).Nodup) :
+    ((rs.filter p).map (·.id)).Nodup :=
+  (List.filter_sublist.map _).nodup hn
+
+/-- **C17_config_remove_list**: with distinct rule ids, `SecRuleRemoveById` with any list of ids
+    and (well-formed) ranges leaves exactly the rules no element of the list names — a list or a
+    range is the enumeration of its members, whatever the order and however they overlap. -/
+theorem C17_config_remove_list (rs : List Rule) (sels : List IdSel)
+    (hn : (rs.map (·.id)).Nodup) (hv : SelsValid sels) :
+    removeSels rs sels = some (rs.filter fun r => !(sels.any (selHas · r.id))) := by
+  induction sels generalizing rs with
+  | nil =>
+    simp only [removeSels, List.any_nil, Bool.not_false]
+    congr 1
+    exact (List.filter_eq_self.mpr (by simp)).symm
+  | cons s ss ih =>
+    have hv' : SelsValid ss := fun s' hs' => hv s' (List.mem_cons_of_mem _ hs')
+    unfold removeSels
+    cases s with
+    | one i =>
+      simp only [removeSel]
+      rw [deleteFirst_eq_filter i rs hn, ih _ (filter_ids_nodup _ rs hn) hv', List.filter_filter]
+      congr 2
+      funext r
+      simp only [List.any_cons, selHas, Bool.not_or, Bool.and_comm]
+    | range lo hi =>
+      have hle : lo ≤ hi := hv _ (List.mem_cons_self) lo hi rfl
+      have : ¬ lo > hi := by omega
+      simp only [removeSel, this, if_false]
+      rw [ih _ (filter_ids_nodup _ rs hn) hv', List.filter_filter]
+      congr 2
+      funext r
+      simp only [List.any_cons, selHas, Bool.not_or, Bool.and_comm]
+
+theorem buildRules_foldl_rules (acc rs : List Rule) :
+    (rs.map Item.rule).foldl buildStep (some acc) = some (acc ++ rs) := by
+  induction rs generalizing acc with
+  | nil => simp
+  | cons r rs ih =>
+    simp only [List.map_cons, List.foldl_cons, buildStep]
+    rw [ih]; simp
+
+/-- **C17_config_remove**: a configuration made of rules followed by `SecRuleRemoveById` is the
+    configuration that never contained the named rules. -/
+theorem C17_config_remove (rs : List Rule) (sels : List IdSel)
+    (hn : (rs.map (·.id)).Nodup) (hv : SelsValid sels) :
+    buildRules (rs.map Item.rule ++ [.dir (.removeById sels)]) =
+      buildRules ((rs.filter fun r => !(sels.any (selHas · r.id))).map Item.rule) := by
+  unfold buildRules
+  rw [List.foldl_append, buildRules_foldl_rules, buildRules_foldl_rules]
+  simp only [List.nil_append, List.foldl_cons, List.foldl_nil, buildStep, applyDir]
+  exact C17_config_remove_list rs sels hn hv
+
+/-- the same for removal by tag (no hypothesis needed) -/
+theorem C17_config_remove_tag (rs : List Rule) (tag : Bytes) :
+    buildRules (rs.map Item.rule ++ [.dir (.removeByTag tag)]) =
+      buildRules ((rs.filter fun r => !r.tags.contains tag).map Item.rule) := by
+  unfold buildRules
+  rw [List.foldl_append, buildRules_foldl_rules, buildRules_foldl_rules]
+  simp [buildStep, applyDir]
+
+/-- **C17_update_target_is_rewritten**: updating the targets of a stored rule whose starter was
+    compiled from the written list `items0` gives the starter compiled from `items0 ++ items`
+    — the rule written with those targets (negations reach the earlier targets of their variable,
+    exactly as when written in one list). -/
+theorem C17_update_target_is_rewritten (items0 items : List TItem) (r : Rule) (l : Link) (ls : List Link)
+    (h : r.links = l :: ls) (hl : l.targets = compileTargets items0) :
+    (addTargets items r).links = { l with targets := compileTargets (items0 ++ items) } :: ls := by
+  unfold addTargets
+  rw [h]
+  simp only [hl, compileTargets, List.foldl_append]
+
+/-- an id list is processed element by element -/
+theorem C17_update_list_append (f : Rule → Rule) (acc : UpdAcc) (s1 s2 : List IdSel) :
+    updSels f acc (s1 ++ s2) = (updSels f acc s1).bind (fun a => updSels f a s2) := by
+  induction s1 generalizing acc with
+  | nil => rfl
+  | cons s ss ih =>
+    simp only [List.cons_append, updSels]
+    cases updSel f acc s with
+    | none => rfl
+    | some a => exact ih a
+
+theorem updFirst_eq_map (f : Rule → Rule) (id : Nat) (rs : List Rule) (hn : (rs.map (·.id)).Nodup) :
+    updFirst f id rs = rs.map (fun r => if r.id == id then f r else r) := by
+  induction rs with
+  | nil => rfl
+  | cons r rs ih =>
+    have hn' : (rs.map (·.id)).Nodup := (List.nodup_cons.mp (by simpa using hn)).2
+    have hnot : r.id ∉ rs.map (·.id) := (List.nodup_cons.mp (by simpa using hn)).1
+    unfold updFirst
+    by_cases h : (r.id == id) = true
+    · simp only [h, if_true, List.map_cons]
+      congr 1
+      have hid : r.id = id := by simpa using h
+      symm
+      calc rs.map (fun r => if r.id == id then f r else r) = rs.map (fun x => x) := by
+            apply List.map_congr_left
+            intro r' hr'
+            have : r'.id ≠ id := by
+              intro heq; apply hnot; rw [hid, ← heq]; exact List.mem_map.mpr ⟨r', hr', rfl⟩
+            simp [this]
+        _ = rs := by simp
+    · simp only [h, Bool.false_eq_true, if_false, List.map_cons]
+      rw [ih hn']
+
+/-- n-fold application -/
+def iter (f : Rule → Rule) : Nat → Rule → Rule
+  | 0, r => r
+  | n + 1, r => iter f n (f r)
+
+/-- **C17_update_rules**: with distinct ids and an update that keeps the id, every rule ends up
+    updated once per element of the list that names it — every id of the list, every member of
+    every range, none else (the defect repaired by 34ba4e7 applied the first single id only). -/
+theorem C17_update_rules (f : Rule → Rule) (hf : ∀ r, (f r).id = r.id) (sels : List IdSel) (hv : SelsValid sels)
+    (acc : UpdAcc) (hn : (acc.rules.map (·.id)).Nodup) :
+    (updSels f acc sels).map (·.rules) =
+      some (acc.rules.map fun r => iter f (sels.countP (selHas · r.id)) r) := by
+  induction sels generalizing acc with
+  | nil => simp [updSels, iter]
+  | cons s ss ih =>
+    have hv' : SelsValid ss := fun s' hs' => hv s' (List.mem_cons_of_mem _ hs')
+    -- the state after this element, whatever its bookkeeping: rules mapped once where named
+    have step : ∃ a, updSel f acc s = some a ∧
+        a.rules = acc.rules.map (fun r => if selHas s r.id then f r else r) := by
+      cases s with
+      | one i =>
+        simp only [updSel, selHas]
+        by_cases hany : acc.rules.any (·.id == i) = true
+        · simp only [hany, if_true]
+          exact ⟨_, rfl, updFirst_eq_map f i acc.rules hn⟩
+        · simp only [hany, Bool.false_eq_true, if_false]
+          refine ⟨_, rfl, ?_⟩
+          symm
+          calc acc.rules.map (fun r => if r.id == i then f r else r) = acc.rules.map (fun x => x) := by
+                apply List.map_congr_left
+                intro r hr
+                have : (r.id == i) = false := by
+                  cases hri : (r.id == i) with
+                  | false => rfl
+                  | true => exact absurd (List.any_eq_true.mpr ⟨r, hr, hri⟩) hany
+                simp [this]
+            _ = acc.rules := by simp
+      | range lo hi =>
+        have hle : lo ≤ hi := hv _ (List.mem_cons_self) lo hi rfl
+        simp only [updSel, selHas]
+        by_cases heq : (lo == hi) = true
+        · have hlh : lo = hi := by simpa using heq
+          subst hlh
+          have hsame : ∀ r : Rule, (decide (lo ≤ r.id) && decide (r.id ≤ lo)) = (r.id == lo) := by
+            intro r
+            rw [Bool.eq_iff_iff]
+            simp only [Bool.and_eq_true, decide_eq_true_eq, beq_iff_eq]
+            omega
+          simp only [heq, if_true, hsame]
+          by_cases hany : acc.rules.any (·.id == lo) = true
+          · simp only [hany, if_true]
+            exact ⟨_, rfl, updFirst_eq_map f lo acc.rules hn⟩
+          · simp only [hany, Bool.false_eq_true, if_false]
+            refine ⟨_, rfl, ?_⟩
+            symm
+            calc acc.rules.map (fun r => if r.id == lo then f r else r) = acc.rules.map (fun x => x) := by
+                  apply List.map_congr_left
+                  intro r hr
+                  have : (r.id == lo) = false := by
+                    cases hri : (r.id == lo) with
+                    | false => rfl
+                    | true => exact absurd (List.any_eq_true.mpr ⟨r, hr, hri⟩) hany
+                  simp [this]
+              _ = acc.rules := by simp
+        · have : ¬ lo > hi := by omega
+          simp only [heq, Bool.false_eq_true, if_false, this]
+          exact ⟨_, rfl, rfl⟩
+    obtain ⟨a, ha, har⟩ := step
+    unfold updSels
+    rw [ha]
+    have hn2 : (a.rules.map (·.id)).Nodup := by
+      rw [har, List.map_map]
+      have : ((fun r : Rule => r.id) ∘ fun r => if selHas s r.id then f r else r) = (fun r => r.id) := by
+        funext r; simp only [Function.comp]; split <;> simp [hf]
+      rw [this]; exact hn
+    rw [ih hv' a hn2, har, List.map_map]
+    congr 1
+    apply List.map_congr_left
+    intro r _
+    simp only [Function.comp, List.countP_cons]
+    by_cases hs : selHas s r.id = true
+    · simp only [hs, if_true, hf]
+      rfl
+    · simp only [hs, Bool.false_eq_true, if_false, Nat.add_zero]
+
+/-- non-vacuity: `SecRuleUpdateTargetById 10 20 "!ARGS:x"` reaches both rules -/
+def C17_r (id : Nat) : Rule :=
+  ⟨id, 1, [], [⟨[mkTarget .code .args [] false], none, [], false, []⟩], .pass, 0, 0, [], none, [], false, false⟩
+example : (applyDir [C17_r 10, C17_r 20, C17_r 30] (.updateTargetById [.one 10, .one 20] [.neg .args (mkExc .code .args [0x78])])).map
+    (fun rs => rs.map fun r => (r.links.map fun l => l.targets.map (·.exc.length))) = some [[[1]], [[1]], [[0]]] := by decide
+example : applyDir [C17_r 10] (.updateTargetById [.one 99] []) = none := by decide
+example : (applyDir [C17_r 10] (.updateTargetById [.range 13 15, .one 10, .one 18] [])).isSome = true := by decide
